@@ -33,3 +33,62 @@ CHECKS = {
         "page become full or a page being freed AND had >= 8 blocks live. Distinct = hash of the IR text (per build variant).",
         [R("rel", 6000, 120000, 2.0), R("dbg", 2500, 40000, 1.0), R("sec", 2500, 40000, 1.0)]),
 }
+
+CHECKS["C04"] = hist_check("C04",
+    "cases = dirty-then-zero histories and monotone rezalloc/recalloc growth chains (writes confined to the requested size); "
+    "oracle: requested bytes of every zero-initialising allocation and every byte between the previous and the new requested size of a "
+    "grown zero-initialised block read 0. Non-trivial = a checked zero range lay in memory the model knows was filled with non-zero bytes "
+    "and freed earlier in the same case. Distinct = hash of the IR text (per build variant).",
+    [R("rel", 5000, 100000, 2.0), R("dbg", 2000, 30000, 1.0), R("sec", 2000, 30000, 1.0)])
+
+CHECKS["C03"] = hist_check("C03",
+    "cases = histories biased to the aligned entry points: alignment 2^k (k=0..27), offsets {0,8,16,n/2,n-1,n,n+8,a-8,a,random}, all size "
+    "classes, prior heap state from a random prefix; follow-ups (usable/expand/free variants/realloc family with the block's own alignment/"
+    "re-allocation of the same class). Oracle: (p+o)%a==0, usable>=n, minimum alignment 16 (n>=16) / 8, alignment kept by re-allocation "
+    "with the same alignment+offset, plus the C01 model. Non-trivial = an over-aligned (a>16) or offset-aligned block was allocated AND a "
+    "freed address was re-used in the same case. Distinct = hash of the IR text (per build variant).",
+    [R("rel", 5000, 100000, 2.0), R("dbg", 2000, 30000, 1.0), R("sec", 2000, 30000, 1.0)],
+    assumptions=["debug build only: offsets that are not a multiple of 8 are excluded (MI_DEBUG>0 rejects non-word-aligned pointers by design); counted as excluded_by_guard",
+                 "re-allocation alignment is asserted only when the call passes the block's own alignment (and offset), as the property states"])
+
+CHECKS["C05"] = hist_check("C05",
+    "cases = histories biased to the realloc family (every entry point incl. heap twins onto other heaps, aligned variants, mi_expand, "
+    "count*size forms) with new sizes drawn around 0, n/2, n, usable size, class/page-kind/huge edges. Oracle: usable>=new size, first "
+    "min(old requested,new) bytes equal the shadow copy, old block leaves the model exactly when a different pointer is returned (the new "
+    "block must be disjoint from every live one), NULL result => old block intact (freed for reallocf), expand never moves and succeeds "
+    "iff n<=usable (no-padding build). Non-trivial = the case contained at least one in-place AND one moving re-allocation whose contents "
+    "were verified. Distinct = hash of the IR text (per build variant).",
+    [R("rel", 5000, 100000, 2.0), R("dbg", 2000, 30000, 1.0), R("sec", 2000, 30000, 1.0)])
+
+CHECKS["C06"] = hist_check("C06",
+    "cases = a normal history interleaved with `edge` calls whose arguments are drawn around SIZE_MAX-k, PTRDIFF_MAX+-k, MI_MAX_ALLOC_SIZE+-k, "
+    "count*size products of 2^64-1/2^64/2^64+d/(2^32+d)^2, SIZE_MAX/size+{0,1}, alignments {0,3,24,2^k+-1,2^63,SIZE_MAX}, for every allocating and "
+    "re-allocating entry point. The executor (not the generator) classifies each call as must-fail. Oracle: NULL / EINVAL / ENOMEM / errno as "
+    "documented, out-parameter sentinel untouched, old block of a failing re-allocation intact, all live blocks verify and a heap walk of every heap "
+    "reports exactly the model's live set afterwards. Non-trivial = a must-fail call was checked while >= 8 blocks were live. Distinct = hash of the IR text.",
+    [R("rel", 16000, 300000, 2.0), R("dbg", 6000, 80000, 1.0), R("sec", 8000, 80000, 1.0)],
+    assumptions=["requests between 64 MiB and PTRDIFF_MAX may succeed or fail depending on the OS; 1 GiB..2^47 and zeroing requests > 64 MiB are not issued (they would really map/clear terabytes); counted as excluded_by_guard",
+                 "mi_new/mi_new_n/mi_new_aligned abort by design in the C build when no new-handler is installed: generated only for sizes that must succeed",
+                 "memalign/aligned_alloc with alignment 0 excluded in the debug build only (its assertion expression divides by the alignment)",
+                 "realloc_aligned family: alignment 0 is a stated precondition (mi_assert); non-power-of-two alignments <= sizeof(void*) are documented as plain re-allocation; larger ones may be served in place"])
+
+CHECKS["C10"] = hist_check("C10",
+    "cases = histories with up to 6 extra heaps (mi_heap_new, tagged/destroyable mi_heap_new_ex, arena-bound), allocation through explicit-heap and "
+    "default-heap API, set_default, delete, destroy in any order, helper-thread frees. Oracle: after delete every block verifies and stays freeable "
+    "(re-homed to the backing heap when compatible), after destroy the heap's blocks leave the model and everything else verifies; a sampled sweep "
+    "asserts mi_heap_contains_block / mi_heap_check_owned / mi_check_owned == (model home == heap) after every heap op and every 32 ops; default "
+    "falls back to the backing heap. Non-trivial = a heap holding >= 2 live blocks was deleted or destroyed while another heap held live blocks. "
+    "Distinct = hash of the IR text. The concurrent half (delete/collect racing remote frees) is decided by the scheduler harness.",
+    [R("rel", 24000, 400000, 2.0), R("dbg", 8000, 100000, 1.0), R("sec", 10000, 100000, 1.0)],
+    assumptions=["never deletes/destroys the backing heap; mi_heap_destroy only on heaps created with allow_destroy (mi_assert preconditions)",
+                 "a tagged heap is not deleted while it holds live blocks (reclaiming a tagged page on a thread without a heap of that tag is reported as an error by design)",
+                 "known finding F5: blocks stranded by deleting an arena-bound heap are not freed by the owner thread again (excluded by construction, demonstrated by a committed replay)"])
+
+CHECKS["C12"] = hist_check("C12",
+    "cases = histories that leave pages empty, with hole patterns (every 2nd/3rd/4th/7th, first/last only), exactly full, single-block, with interior "
+    "aligned blocks and helper-thread frees (followed by a non-forced collect), interleaved with mi_heap_visit_blocks walks of every heap, one third with "
+    "a generated stop index. Oracle: every model block homed in the heap lies in exactly one visited range that encloses its usable bytes, no range holds "
+    "two live blocks, unmatched ranges are heap descriptors in the backing heap (exact count), per-area used == blocks reported in that area, early stop "
+    "makes exactly k block calls and returns false. Non-trivial = a walk covered an area with holes and a full/single-block area and >= 64 blocks were "
+    "visited. Distinct = hash of the IR text.",
+    [R("rel", 24000, 400000, 2.0), R("dbg", 8000, 100000, 1.0), R("sec", 10000, 100000, 1.0)])
